@@ -74,6 +74,13 @@ def run(ctx):
         sp['opts']['skip_nodes'] = [rng.choice(sorted(set(nn for a in sp['assets'] for nn in a['nodes'])))]
     specs += sk
     specs += util.orderbook_tail_specs(ctx.seed, 8 if ctx.tier == 'quick' else 50, 'c14ob_')
+    # assets with a coarser frequency and discounting, split at multiples of the coarse step (uncoupled: split value = unsplit value)
+    for T_ in (24, 36):
+        co = gen.gen_many(ctx.seed, n // 8, dict(CFG, freqs=['h'], tzs=[None], T=(T_, T_), p_coarse=0.7, p_wacc=1.0, p_window=0.0, p_unaligned_end=0.0, n_assets=(1, 3), p_no_simult=0.0,
+                                                 kinds={'SimpleContract': 4, 'Transport': 2, 'MultiCommodityContract': 1}), 'c14co%d_' % T_)
+        for sp in co:
+            sp['opts']['split'] = '12h'
+        specs += co
     specs = ctx.specs(specs)
     res = C.run_impl('portfolio', specs)
     exprs, owners = [], []
@@ -127,6 +134,9 @@ def run(ctx):
             iv = s.get('interval_values') or []
             if None not in iv and abs(sum(iv) - s['value']) > 1e-6 * (1 + abs(s['value'])):
                 bad['value is not the sum of the interval optima'] = [s['value'], iv]
+            ag = s.get('again')
+            if ag is not None and not (isinstance(ag, dict) and len(ag['x']) == len(s['x']) and abs(ag['value'] - s['value']) <= 1e-6 * (1 + abs(s['value']))):
+                bad['optimising the same split problem again gives another result'] = [s['value'], len(s['x']), ag if not isinstance(ag, dict) else [ag['value'], len(ag['x'])]]
         elif s.get('solve') == 'crash':
             bad['split optimisation crashed'] = s.get('solve_error')
         if s.get('solve') == 'optimal' and s.get('out') is None and not (o.get('solve') == 'optimal' and o.get('out') is None):
